@@ -713,6 +713,19 @@ impl Xot {
         F: Fn(Node) -> bool,
         C: Fn(&str, &str) -> bool,
     {
+        // attribute and namespace nodes are not part of a traversal, so if
+        // they are compared directly we compare their values
+        if self.is_attribute_node(a)
+            || self.is_namespace_node(a)
+            || self.is_attribute_node(b)
+            || self.is_namespace_node(b)
+        {
+            return match (filter(a), filter(b)) {
+                (true, true) => self.advanced_compare_value(a, b, &text_compare),
+                (false, false) => true,
+                _ => false,
+            };
+        }
         let filter_edge = |edge: &NodeEdge| {
             let node = match edge {
                 NodeEdge::Start(node) | NodeEdge::End(node) => *node,
